@@ -15,7 +15,7 @@ EXPLANATION = (
     "vertex is all-zero (so fixing vertices - isolated ones, landmarks, all of them - never makes the system singular)."
 )
 BOUNDS = {"quick": "14 structures (none/one/several/all fixed, fixed landmark, fixed vertex without edges, under-constrained free vertex) x max_iter 1..3 (1 for SE(3)) x fix_first_pose", "thorough": "the same structures and all fixed subsets of 5 base graphs x max_iter 1..5"}
-BOUNDS = {k: v + "; 5 two-call histories (flags edited between consecutive optimize() calls on one Graph object)" for k, v in BOUNDS.items()}
+BOUNDS = {k: v + "; 5 two-call histories (flags edited between consecutive optimize() calls on one Graph object); fixed SE(3) vertices with stored quaternions of arbitrary length and sign" for k, v in BOUNDS.items()}
 OUTSIDE = "rounding; IEEE semantics of pose [+] 0 is no longer relied upon (fixed vertices are skipped by the update loop); iteration counts beyond the bound (each iteration is verified from an arbitrary symbolic state)"
 ASSUMPTIONS = ["solver contract as described", "information symmetric", "ids distinct", "chi^2 >= 0"]
 
